@@ -234,8 +234,14 @@ def _o4_probability(ctx, rep):
     for n, tm, tp in pairs:
         scope = n if isinstance(n, ast.For) else getattr(n, "_parent", n)
         divs = [x for x in ast.walk(scope) if isinstance(x, ast.BinOp) and isinstance(x.op, ast.Div) and isinstance(x.left, ast.Name) and x.left.id == tm]
+        div_lefts = {id(x.left) for x in divs}
+        uses = [x for x in ast.walk(scope) if isinstance(x, ast.Name) and x.id == tm and isinstance(x.ctx, ast.Load) and id(x) not in div_lefts]
+        if uses:
+            rep.violation("O4", h, "post-measurement state", "the unnormalised post-state %s is used without dividing it by its probability %s: "
+                          "the post-measurement state is not normalised" % (tm, tp), node=uses[0])
+            continue
         if not divs:
-            rep.undecided("O4", h, "post-measurement state", "the unnormalised post-state %s is not divided in the loop over the pairs" % tm)
+            rep.undecided("O4", h, "post-measurement state", "the unnormalised post-state %s is not used in the loop over the pairs" % tm)
             continue
         ok = all(isinstance(x.right, ast.Name) and x.right.id == tp for x in divs)
         rep.check(ok, "O4", h, "post-measurement state", "rho_x = (M rho)_x / p_x with the probability of the same outcome",
